@@ -43,3 +43,4 @@ struct KnownFinding {
 std::vector<KnownFinding> load_known(const std::string &path);
 const KnownFinding *match_known(const std::vector<KnownFinding> &k, const Violation &v);
 std::string verif_dir();
+std::string out_dir();
